@@ -61,6 +61,7 @@ func c10(c *Ctx) {
 	c10system(c)
 	c10filters(c)
 	c10cacheMode(c)
+	c10floor(c)
 
 	// ---- DIV
 	r.Rule("DIV: every integer / and % in package cpusuppress (thorough: plus qosmanager/helpers and util/cpuset) has a divisor that is a non-zero constant or is dominated by a branch outcome implying non-zero for the same value / the same len(x)")
